@@ -1,11 +1,649 @@
-//! C17 — check not built yet.
-use mc_core::Args;
-use serde_json::Value;
+//! C17 — pool-migration schedules, anchors, expiries and labels stay canonical.
+//!
+//! The random generator is an environment the harness answers (`c17/rng.rs`): a scripted `RngCore`
+//! replays a word sequence and then falls back to a constant under which the function under test
+//! terminates. For every randomised function, ALL word sequences up to length 4 (5 in the thorough
+//! tier for shuffles and anchors) over an alphabet derived from that function's own thresholds are
+//! enumerated, crossed with boundary lattices of heights, intervals and distributions.
+//! Wake-up schedules: all small instances against a brute-force minimum piercing set.
+//! Classification: the full evidence lattice, every covering edge.
 
-pub fn replay(_kind: &str, _case: &Value) -> Result<(), String> {
-    Err("C17: check not built".into())
+mod anchor;
+mod classify;
+mod rng;
+mod sched;
+mod wakeup;
+
+use mc_core::{Args, Run, Tier};
+use rayon::prelude::*;
+use rng::{for_each_seq, hexw, parse_words, seq_count};
+use serde_json::{json, Value};
+use std::collections::BTreeMap;
+use std::sync::atomic::{AtomicBool, AtomicU32, Ordering};
+
+const TOP: u32 = u32::MAX;
+const M: u32 = 34_560;
+
+/// (mean, cap): the two ZIP 318 distributions, the degenerate 1/1, a scaled test-network one, one
+/// that never rejects, one whose largest rounded draws leave 32 bits and wrap back under the cap,
+/// and the largest representable.
+const DISTS: [(u32, u32); 7] = [(1, 1), (16, 96), (66, 576), (5, 48), (1, TOP), (1 << 27, 1 << 27), (TOP, TOP)];
+const INTERVALS: [u32; 6] = [1, 2, 3, 144, 1 << 31, TOP];
+
+type Hist = BTreeMap<String, u64>;
+fn bump(h: &mut Hist, k: &str) {
+    match h.get_mut(k) {
+        Some(v) => *v += 1,
+        None => {
+            h.insert(k.to_string(), 1);
+        }
+    }
+}
+/// Outcome classes observed so far (for the vacuity guards at the end of the run).
+static SEEN: std::sync::Mutex<std::collections::BTreeSet<String>> = std::sync::Mutex::new(std::collections::BTreeSet::new());
+fn seen(k: &str) -> bool {
+    SEEN.lock().unwrap().contains(k)
+}
+/// Record a violation, keeping at most a few per sub-check so that one broken function cannot crowd
+/// the others out of the (bounded) failure list.
+static PER_KIND: std::sync::Mutex<BTreeMap<String, u32>> = std::sync::Mutex::new(BTreeMap::new());
+const MAX_PER_KIND: u32 = 3;
+fn fail(run: &Run, kind: &str, key: String, msg: String, case: Value) {
+    {
+        let mut g = PER_KIND.lock().unwrap();
+        let c = g.entry(kind.to_string()).or_insert(0);
+        if *c >= MAX_PER_KIND {
+            return;
+        }
+        *c += 1;
+    }
+    run.fail(kind, key, msg, case);
+}
+/// Whether one of the sub-checks has already recorded its quota of violations. Sweeps test this once
+/// per task and stop early: the run is a violation anyway, and a function that panics on every
+/// input would otherwise make the failing run very slow. Stopping is recorded as a cap.
+fn saturated(run: &Run, kinds: &[&str]) -> bool {
+    let hit = {
+        let g = PER_KIND.lock().unwrap();
+        kinds.iter().any(|k| g.get(*k).copied().unwrap_or(0) >= MAX_PER_KIND)
+    };
+    if hit && !STOPPED.swap(true, Ordering::Relaxed) {
+        run.cap_hit("a sub-check reached its quota of recorded violations; the rest of its sweep was skipped (the run is a violation)");
+    }
+    hit
+}
+static STOPPED: AtomicBool = AtomicBool::new(false);
+fn flush(run: &Run, h: Hist, n: u64) {
+    run.eval_distinct(n);
+    let mut s = SEEN.lock().unwrap();
+    for (k, v) in h {
+        run.outcome_n(&k, v);
+        if !s.contains(&k) {
+            s.insert(k);
+        }
+    }
 }
 
-pub fn run(_args: &Args) -> i32 {
-    mc_core::machinery_error("C17: check not built")
+fn commits() -> Vec<u32> {
+    vec![0, 1, M - 1, M, 1_000_000, TOP - 2 * M - 1, TOP - 2 * M, TOP - M, TOP - 577, TOP - 576, TOP - 96, TOP - 1, TOP]
+}
+
+// ---------------------------------------------------------------------------------------------
+// replay
+// ---------------------------------------------------------------------------------------------
+
+fn u(v: &Value) -> u32 {
+    v.as_u64().unwrap_or(0) as u32
+}
+fn fb(v: &Value) -> u64 {
+    v.as_str().and_then(|s| u64::from_str_radix(s.trim_start_matches("0x"), 16).ok()).unwrap_or(1)
+}
+fn point_of(v: &Value) -> classify::Point {
+    let mut p = [0u8; 8];
+    if let Some(a) = v.as_array() {
+        for (i, x) in a.iter().take(8).enumerate() {
+            p[i] = x.as_u64().unwrap_or(0) as u8;
+        }
+    }
+    p
+}
+fn instance_of(c: &Value) -> wakeup::Instance {
+    wakeup::Instance {
+        transfers: c["transfers"].as_array().map(|a| a.iter().map(|t| (u(&t[0]), u(&t[1]))).collect()).unwrap_or_default(),
+        tip: u(&c["tip"]),
+        margin: u(&c["margin"]),
+        jitter_cap: u(&c["jitter_cap"]),
+    }
+}
+
+pub fn replay(kind: &str, c: &Value) -> Result<(), String> {
+    let w = parse_words(&c["words"]);
+    let f = fb(&c["fallback"]);
+    match kind {
+        "delay" => sched::check_delay(u(&c["mean"]), u(&c["cap"]), &w, f).map(|_| ()),
+        "schedule" => sched::check_schedule(u(&c["mean"]), u(&c["cap"]), u(&c["commit"]), u(&c["n"]) as usize, &w, f).map(|_| ()),
+        "expiry" => sched::check_expiry(u(&c["h"])).map(|_| ()),
+        "shuffle" => sched::check_shuffle(u(&c["n"]) as usize, &w, f).map(|_| ()),
+        "scaled" => sched::check_scaled(u(&c["interval"])).map(|_| ()),
+        "dist" => sched::check_dist_new(u(&c["mean"]), u(&c["cap"])).map(|_| ()),
+        "draw" => anchor::check_draw(u(&c["interval"]), u(&c["activation"]), u(&c["funding"]), u(&c["tip"]), &w, f).map(|_| ()),
+        "redraw" => anchor::check_redraw(u(&c["interval"]), u(&c["prior"]), u(&c["broadcast"]), &w, f).map(|_| ()),
+        "earliest" => anchor::check_earliest(u(&c["interval"]), u(&c["activation"]), u(&c["funding"]), u(&c["tip"])).map(|_| ()),
+        "grid" => anchor::check_grid(u(&c["interval"]), u(&c["h"])).map(|_| ()),
+        "wakeup" => wakeup::check(&instance_of(c), &w, f).map(|_| ()),
+        "point" => classify::check_point(&point_of(&c["point"]), c["custom"].as_bool().unwrap_or(false)).map(|_| ()),
+        "edge" => classify::check_edge(&point_of(&c["point"]), u(&c["field"]) as usize, u(&c["value"]) as u8, c["custom"].as_bool().unwrap_or(false)).map(|_| ()),
+        "code" => classify::check_codes(c["code"].as_str().and_then(|s| s.parse().ok()).unwrap_or(0)).map(|_| ()),
+        _ => Err(format!("unknown kind {kind}")),
+    }
+}
+
+// ---------------------------------------------------------------------------------------------
+// sweeps
+// ---------------------------------------------------------------------------------------------
+
+fn sweep_plain(run: &Run) {
+    let mut h = Hist::new();
+    let mut n = 0u64;
+    // grid helpers
+    for &i in &INTERVALS {
+        for x in anchor::heights(i, true) {
+            n += 1;
+            match anchor::check_grid(i, x) {
+                Ok(o) => bump(&mut h, o),
+                Err(m) => fail(run, "grid", format!("grid({i},{x})"), m, json!({"interval": i, "h": x})),
+            }
+        }
+    }
+    // scaled distributions and the validated constructor
+    for i in [1u32, 2, 8, 9, 10, 12, 143, 144, 145, 1 << 16, 1_073_741_823, 1_073_741_824, 1_073_741_825, 1 << 31, TOP - 1, TOP] {
+        n += 1;
+        match sched::check_scaled(i) {
+            Ok(o) => bump(&mut h, o),
+            Err(m) => fail(run, "scaled", format!("scaled({i})"), m, json!({"interval": i})),
+        }
+    }
+    let lat = [1u32, 2, 95, 96, 97, TOP - 1, TOP];
+    for &mean in &lat {
+        for &cap in &lat {
+            n += 1;
+            match sched::check_dist_new(mean, cap) {
+                Ok(o) => bump(&mut h, o),
+                Err(m) => fail(run, "dist", format!("dist({mean},{cap})"), m, json!({"mean": mean, "cap": cap})),
+            }
+        }
+    }
+    // classification codes
+    for code in [i64::MIN, -1, 0, 1, 2, 3, 4, 5, 255, 256, i64::MAX] {
+        n += 1;
+        match classify::check_codes(code) {
+            Ok(o) => bump(&mut h, o),
+            Err(m) => fail(run, "code", format!("code({code})"), m, json!({"code": code.to_string()})),
+        }
+    }
+    flush(run, h, n);
+}
+
+fn sweep_expiry(run: &Run) {
+    // every height of the first four periods and of the last three; both sides of every multiple
+    // of the modulus in between
+    let mut hs: Vec<u32> = (0..=4 * M + 2).collect();
+    hs.extend(TOP - 3 * M - 2..=TOP);
+    let mut k = 4u64;
+    while k * (M as u64) <= TOP as u64 {
+        let b = k * M as u64;
+        for d in -2i64..=2 {
+            let x = b as i64 + d;
+            if (0..=TOP as i64).contains(&x) {
+                hs.push(x as u32);
+            }
+        }
+        k += 1;
+    }
+    hs.sort();
+    hs.dedup();
+    hs.par_chunks(4096).for_each(|chunk| {
+        if saturated(run, &["expiry"]) {
+            return;
+        }
+        let mut h = Hist::new();
+        for &x in chunk {
+            match sched::check_expiry(x) {
+                Ok(o) => bump(&mut h, o),
+                Err(m) => fail(run, "expiry", format!("expiry({x})"), m, json!({"h": x})),
+            }
+        }
+        flush(run, h, chunk.len() as u64);
+    });
+}
+
+fn sweep_delays(run: &Run, max_len: usize, alphabets: &mut serde_json::Map<String, Value>) {
+    let commits = commits();
+    for &(mean, cap) in &DISTS {
+        let words = rng::delay_words(mean, cap);
+        alphabets.insert(format!("delay(mean={mean},cap={cap})"), json!(hexw(&words)));
+        words.par_iter().for_each(|&first| {
+            if saturated(run, &["delay", "schedule"]) {
+                return;
+            }
+            let mut h = Hist::new();
+            let mut n = 0u64;
+            for fallback in [0u64, 1 << 11] {
+                for_each_seq(&words, &[first], max_len, &mut |s| {
+                    n += 1;
+                    match sched::check_delay(mean, cap, s, fallback) {
+                        Ok(o) => bump(&mut h, &o),
+                        Err(m) => fail(run, "delay", format!("delay({mean},{cap},{:?},{fallback:#x})", hexw(s)), m, json!({"mean": mean, "cap": cap, "words": hexw(s), "fallback": format!("{fallback:#x}")})),
+                    }
+                    for &commit in &commits {
+                        for parts in [1usize, 5] {
+                            n += 1;
+                            match sched::check_schedule(mean, cap, commit, parts, s, fallback) {
+                                Ok(o) => bump(&mut h, o),
+                                Err(m) => fail(run, 
+                                    "schedule",
+                                    format!("schedule({mean},{cap},{commit},{parts},{:?},{fallback:#x})", hexw(s)),
+                                    m,
+                                    json!({"mean": mean, "cap": cap, "commit": commit, "n": parts, "words": hexw(s), "fallback": format!("{fallback:#x}")}),
+                                ),
+                            }
+                        }
+                    }
+                });
+            }
+            flush(run, h, n);
+        });
+        // the empty script and zero parts
+        let mut h = Hist::new();
+        let mut n = 0;
+        for fallback in [0u64, 1 << 11] {
+            n += 1;
+            match sched::check_delay(mean, cap, &[], fallback) {
+                Ok(o) => bump(&mut h, &o),
+                Err(m) => fail(run, "delay", format!("delay({mean},{cap},[],{fallback:#x})"), m, json!({"mean": mean, "cap": cap, "words": [], "fallback": format!("{fallback:#x}")})),
+            }
+            for &commit in &commits {
+                for parts in [0usize, 1, 5] {
+                    n += 1;
+                    match sched::check_schedule(mean, cap, commit, parts, &[], fallback) {
+                        Ok(o) => bump(&mut h, o),
+                        Err(m) => fail(run, "schedule", format!("schedule({mean},{cap},{commit},{parts},[],{fallback:#x})"), m, json!({"mean": mean, "cap": cap, "commit": commit, "n": parts, "words": [], "fallback": format!("{fallback:#x}")})),
+                    }
+                }
+            }
+        }
+        flush(run, h, n);
+    }
+}
+
+fn sweep_shuffle(run: &Run, max_len: usize, alphabets: &mut serde_json::Map<String, Value>) {
+    let words = rng::bounded_draw_words(&[2, 3, 4, 5, 6]);
+    alphabets.insert("bounded_draw(bounds 2..=6)".into(), json!(hexw(&words)));
+    let mut starts: Vec<Vec<u64>> = vec![vec![]];
+    starts.extend(words.iter().map(|w| vec![*w]));
+    starts.par_iter().for_each(|start| {
+        if saturated(run, &["shuffle"]) {
+            return;
+        }
+        let mut h = Hist::new();
+        let mut n = 0u64;
+        let mut body = |s: &[u64]| {
+            for fallback in [1u64, u64::MAX] {
+                for size in 0..=6usize {
+                    n += 1;
+                    match sched::check_shuffle(size, s, fallback) {
+                        Ok(o) => bump(&mut h, o),
+                        Err(m) => fail(run, "shuffle", format!("shuffle({size},{:?},{fallback:#x})", hexw(s)), m, json!({"n": size, "words": hexw(s), "fallback": format!("{fallback:#x}")})),
+                    }
+                }
+            }
+        };
+        if start.is_empty() {
+            body(&[]);
+        } else {
+            for_each_seq(&words, start, max_len, &mut body);
+        }
+        flush(run, h, n);
+    });
+}
+
+fn mult(i: u32, k: u64, d: i64) -> Option<u32> {
+    let x = (i as u64 * k) as i128 + d as i128;
+    (0..=TOP as i128).contains(&x).then_some(x as u32)
+}
+
+fn sweep_anchors(run: &Run, max_len: usize, alphabets: &mut serde_json::Map<String, Value>) {
+    let words = rng::age_words();
+    alphabets.insert("anchor_age".into(), json!(hexw(&words)));
+    let fail_draw = |i: u32, a: u32, f: u32, t: u32, s: &[u64], fbk: u64, m: String| {
+        fail(run, "draw", format!("draw({i},{a},{f},{t},{:?},{fbk:#x})", hexw(s)), m, json!({"interval": i, "activation": a, "funding": f, "tip": t, "words": hexw(s), "fallback": format!("{fbk:#x}")}))
+    };
+    let fail_redraw = |i: u32, p: u32, b: u32, s: &[u64], fbk: u64, m: String| {
+        fail(run, "redraw", format!("redraw({i},{p},{b},{:?},{fbk:#x})", hexw(s)), m, json!({"interval": i, "prior": p, "broadcast": b, "words": hexw(s), "fallback": format!("{fbk:#x}")}))
+    };
+    // shape sweep: rich height lattice, scripts of length <= 1
+    for &i in &INTERVALS {
+        let hs = anchor::heights(i, true);
+        hs.par_iter().for_each(|&a| {
+            if saturated(run, &["draw", "redraw", "earliest"]) {
+                return;
+            }
+            let mut h = Hist::new();
+            let mut n = 0u64;
+            for &f in &hs {
+                for &t in &hs {
+                    n += 1;
+                    match anchor::check_earliest(i, a, f, t) {
+                        Ok(o) => bump(&mut h, o),
+                        Err(m) => fail(run, "earliest", format!("earliest({i},{a},{f},{t})"), m, json!({"interval": i, "activation": a, "funding": f, "tip": t})),
+                    }
+                    for fbk in [1u64, u64::MAX] {
+                        for_each_seq(&words, &[], 1, &mut |s| {
+                            n += 1;
+                            match anchor::check_draw(i, a, f, t, s, fbk) {
+                                Ok(o) => bump(&mut h, &o),
+                                Err(m) => fail_draw(i, a, f, t, s, fbk, m),
+                            }
+                        });
+                    }
+                }
+                // (prior, broadcast) = (a, f)
+                for fbk in [1u64, u64::MAX] {
+                    for_each_seq(&words, &[], 1, &mut |s| {
+                        n += 1;
+                        match anchor::check_redraw(i, a, f, s, fbk) {
+                            Ok(o) => bump(&mut h, &o),
+                            Err(m) => fail_redraw(i, a, f, s, fbk, m),
+                        }
+                    });
+                }
+            }
+            flush(run, h, n);
+        });
+    }
+    // stream sweep: every script up to max_len on a small lattice around the candidate-set edges
+    for &i in &INTERVALS {
+        let acts: Vec<u32> = [mult(i, 0, 0), mult(i, 1, 0)].into_iter().flatten().collect();
+        let funds: Vec<u32> = [mult(i, 0, 0), mult(i, 2, 0), mult(i, 3, 1)].into_iter().flatten().collect();
+        let tips: Vec<u32> = [mult(i, 2, -1), mult(i, 2, 0), mult(i, 4, 0), mult(i, 6, 1), mult(i, 7, -1), Some(TOP)].into_iter().flatten().collect();
+        let priors: Vec<u32> = [mult(i, 0, 0), mult(i, 1, 0), mult(i, 1, 1), mult(i, 3, 0)].into_iter().flatten().collect();
+        let mut starts: Vec<Vec<u64>> = vec![];
+        for a in &words {
+            for b in &words {
+                starts.push(vec![*a, *b]);
+            }
+        }
+        starts.par_iter().for_each(|start| {
+            if saturated(run, &["draw", "redraw"]) {
+                return;
+            }
+            let mut h = Hist::new();
+            let mut n = 0u64;
+            for fbk in [1u64, u64::MAX] {
+                for_each_seq(&words, start, max_len, &mut |s| {
+                    for &t in &tips {
+                        for &a in &acts {
+                            for &f in &funds {
+                                n += 1;
+                                match anchor::check_draw(i, a, f, t, s, fbk) {
+                                    Ok(o) => bump(&mut h, &o),
+                                    Err(m) => fail_draw(i, a, f, t, s, fbk, m),
+                                }
+                            }
+                        }
+                        for &p in &priors {
+                            n += 1;
+                            match anchor::check_redraw(i, p, t, s, fbk) {
+                                Ok(o) => bump(&mut h, &o),
+                                Err(m) => fail_redraw(i, p, t, s, fbk, m),
+                            }
+                        }
+                    }
+                });
+            }
+            flush(run, h, n);
+        });
+    }
+}
+
+#[derive(Clone, Copy)]
+struct Set {
+    n: usize,
+    t: [(u32, u32); 5],
+}
+impl Set {
+    fn vec(&self) -> Vec<(u32, u32)> {
+        self.t[..self.n].to_vec()
+    }
+}
+
+fn multisets(pairs: &[(u32, u32)], k: usize) -> Vec<Set> {
+    fn rec(pairs: &[(u32, u32)], start: usize, k: usize, cur: &mut Set, out: &mut Vec<Set>) {
+        if cur.n == k {
+            out.push(*cur);
+            return;
+        }
+        for i in start..pairs.len() {
+            cur.t[cur.n] = pairs[i];
+            cur.n += 1;
+            rec(pairs, i, k, cur, out);
+            cur.n -= 1;
+        }
+    }
+    let mut out = Vec::new();
+    rec(pairs, 0, k, &mut Set { n: 0, t: [(0, 0); 5] }, &mut out);
+    out
+}
+
+fn sweep_wakeups(run: &Run, tier: Tier, alphabets: &mut serde_json::Map<String, Value>) {
+    let full = rng::bounded_draw_words(&[2, 3, 4]);
+    let small: Vec<u64> = vec![0, 1, 1 << 62, 1 << 63, 0xAAAA_AAAA_AAAA_AAAB, u64::MAX];
+    alphabets.insert("wakeup_jitter(<=2 transfers; bounds 2..=4)".into(), json!(hexw(&full)));
+    alphabets.insert("wakeup_jitter(>=3 transfers; one word per jitter value per bound, one rejected)".into(), json!(hexw(&small)));
+    let wall_cap = tier.pick(45.0, 1500.0);
+    let capped = AtomicBool::new(false);
+    let jitters_seen = AtomicU32::new(0);
+    let max_k = tier.pick(3, 4);
+    let mut counts = serde_json::Map::new();
+    for base in [0u32, TOP - 12] {
+        let dom: Vec<u32> = (0..=12).map(|d| base + d).collect();
+        let all: Vec<(u32, u32)> = dom.iter().flat_map(|a| dom.iter().map(move |b| (*a, *b))).collect();
+        let feasible: Vec<(u32, u32)> = all.iter().copied().filter(|(a, b)| *b as u64 >= *a as u64 + 2).collect();
+        let tips: Vec<u32> = (0..=13u64).filter_map(|d| u32::try_from(base as u64 + d).ok()).collect();
+        let mut sets: Vec<Set> = vec![Set { n: 0, t: [(0, 0); 5] }];
+        for p in &all {
+            sets.push(Set { n: 1, t: [*p, (0, 0), (0, 0), (0, 0), (0, 0)] });
+        }
+        for p in &all {
+            for q in &all {
+                sets.push(Set { n: 2, t: [*p, *q, (0, 0), (0, 0), (0, 0)] });
+            }
+        }
+        if base == 0 {
+            for k in 3..=max_k {
+                for s in multisets(&feasible, k) {
+                    sets.push(s);
+                    let mut r = s;
+                    r.t[..k].reverse();
+                    if r.t != s.t {
+                        sets.push(r);
+                    }
+                }
+            }
+        }
+        counts.insert(format!("transfer_sets(base={base})"), json!(sets.len()));
+        sets.par_chunks(64).for_each(|chunk| {
+            if run.elapsed() > wall_cap {
+                capped.store(true, Ordering::Relaxed);
+                return;
+            }
+            if saturated(run, &["wakeup"]) {
+                return;
+            }
+            let mut h: BTreeMap<&'static str, u64> = BTreeMap::new();
+            let mut n = 0u64;
+            let mut js = 0u32;
+            for set in chunk {
+                let words: &[u64] = if set.n <= 2 { &full } else { &small };
+                for &tip in &tips {
+                    for margin in [0u32, 1, 2, 3] {
+                        for jitter_cap in [0u32, 1, 3] {
+                            let inst = wakeup::Instance { transfers: set.vec(), tip, margin, jitter_cap };
+                            let mut one = |s: &[u64]| -> u32 {
+                                n += 1;
+                                match wakeup::check(&inst, s, 1) {
+                                    Ok(v) => {
+                                        *h.entry(v.class).or_insert(0) += 1;
+                                        js |= v.jitters;
+                                        v.draws
+                                    }
+                                    Err(m) => {
+                                        fail(run, 
+                                            "wakeup",
+                                            format!("wakeup({:?},tip={tip},margin={margin},jitter={jitter_cap},{:?})", inst.transfers, hexw(s)),
+                                            m,
+                                            json!({"transfers": inst.transfers.iter().map(|(a, b)| vec![*a, *b]).collect::<Vec<_>>(), "tip": tip, "margin": margin, "jitter_cap": jitter_cap, "words": hexw(s), "fallback": "0x1"}),
+                                        );
+                                        0
+                                    }
+                                }
+                            };
+                            let draws = one(&[]) as usize;
+                            if draws > 0 {
+                                // every script of exactly `draws` words (one per jittered wake-up)
+                                let mut idx = vec![0usize; draws];
+                                let mut s = vec![words[0]; draws];
+                                'outer: loop {
+                                    one(&s);
+                                    let mut p = 0;
+                                    loop {
+                                        idx[p] += 1;
+                                        if idx[p] < words.len() {
+                                            s[p] = words[idx[p]];
+                                            break;
+                                        }
+                                        idx[p] = 0;
+                                        s[p] = words[0];
+                                        p += 1;
+                                        if p == draws {
+                                            break 'outer;
+                                        }
+                                    }
+                                }
+                            }
+                        }
+                    }
+                }
+            }
+            flush(run, h.into_iter().map(|(k, v)| (k.to_string(), v)).collect(), n);
+            jitters_seen.fetch_or(js, Ordering::Relaxed);
+        });
+    }
+    if capped.load(Ordering::Relaxed) {
+        run.cap_hit(&format!("wall cap {wall_cap}s hit during the wake-up sweep; remaining transfer sets skipped"));
+    }
+    counts.insert("jitters_observed_bitmask".into(), json!(jitters_seen.load(Ordering::Relaxed)));
+    run.section("wakeups", Value::Object(counts));
+    run.require(jitters_seen.load(Ordering::Relaxed) & 0b1111 == 0b1111 || run.failure_count() > 0, "not every jitter 0..=3 was observed in the wake-up sweep");
+}
+
+fn sweep_classify(run: &Run) {
+    use classify::{check_edge, check_point, Point, ARITY, CLASS_NAMES};
+    let mut points: Vec<Point> = Vec::new();
+    let mut p: Point = [0; 8];
+    'gen: loop {
+        points.push(p);
+        let mut f = 0;
+        loop {
+            p[f] += 1;
+            if p[f] < ARITY[f] {
+                break;
+            }
+            p[f] = 0;
+            f += 1;
+            if f == 8 {
+                break 'gen;
+            }
+        }
+    }
+    let edges = AtomicU32::new(0);
+    run.section("classification", json!({"lattice_points": points.len(), "constants": ["ZIP 318", "custom (3 preparation actions, 1 ZEC cap)"]}));
+    for custom in [false, true] {
+        points.par_chunks(1024).for_each(|chunk| {
+            if saturated(run, &["point", "edge"]) {
+                return;
+            }
+            let mut h = Hist::new();
+            let mut n = 0u64;
+            for p in chunk {
+                n += 1;
+                match check_point(p, custom) {
+                    Ok(c) => bump(&mut h, &format!("point:{}", CLASS_NAMES[c as usize])),
+                    Err(m) => fail(run, "point", format!("point({:?},custom={custom})", p), m, json!({"point": p, "custom": custom})),
+                }
+                for f in 0..8 {
+                    if p[f] != 0 {
+                        continue;
+                    }
+                    for v in 1..ARITY[f] {
+                        n += 1;
+                        match check_edge(p, f, v, custom) {
+                            Ok(o) => bump(&mut h, o),
+                            Err(m) => fail(run, "edge", format!("edge({:?},{f},{v},custom={custom})", p), m, json!({"point": p, "field": f, "value": v, "custom": custom})),
+                        }
+                    }
+                }
+            }
+            edges.fetch_add((n - chunk.len() as u64) as u32, Ordering::Relaxed);
+            flush(run, h, n);
+        });
+    }
+    // the lattice as a graph: points are states, covering edges are transitions; every edge was executed
+    // on the implementation at both ends
+    let e = edges.load(Ordering::Relaxed) as u64;
+    run.add_graph(2 * points.len() as u64, e, e);
+}
+
+pub fn run(args: &Args) -> i32 {
+    let run = Run::new(args, "exploration");
+    run.set_rule(
+        "the random generator is scripted: for each randomised function every word sequence of length 0..=L (L=4; 5 in the thorough tier for \
+         shuffles and anchors) over that function's threshold alphabet, followed by a constant under which it terminates, crossed with boundary \
+         lattices (heights incl. u32::MAX edges, intervals {1,2,3,144,2^31,u32::MAX}, 7 delay distributions); wake-ups: every set of <=2 transfers \
+         (ordered, all 169 anchor/broadcast pairs of a 13-height domain, also at the top of the height range) and every multiset of 3 (4 in the \
+         thorough tier) feasible transfers in both input orders x 14 tips x 4 margins x 3 jitter caps x every jitter script; classification: \
+         every point and every covering edge of the evidence lattice under two sets of constants. A case is distinct by its full tuple.",
+    );
+    run.assume("streams under which rejection sampling does not terminate are outside the property; after the scripted words the generator returns a constant under which the function under test terminates (0 or 2^11 for delays, 1 or u64::MAX for bounded draws and anchor ages)");
+    run.assume("wake-up windows: [anchor + max(margin,1), broadcast - 1]; when the margin does not fit before the broadcast the window is the last height before the broadcast (the clamp the source documents for tiny test-network intervals); overdue transfers are covered by the immediate wake-up at the tip, which is then a mandatory point of the piercing set (as documented)");
+    run.assume("classification monotonicity is demanded on the edges a single source can walk: the two CONFIRMATORY clauses (anchor_on_grid, fee_is_canonical) are documented as a fixed capability of the source, and a negative answer to one is documented to refute even a labelled transaction; those edges are checked against that documentation instead (positive answer: no change; negative answer: Nonconforming) and counted as 'edge:confirmatory-negative-overrides-label'");
+    run.assume("a wrapped 32-bit rounding of an enormous exponential draw (means near u32::MAX) still yields a delay within the cap; only the cap is demanded of a delay");
+    let quick = args.tier == Tier::Quick;
+    let mut alphabets = serde_json::Map::new();
+
+    sweep_plain(&run);
+    sweep_expiry(&run);
+    sweep_classify(&run);
+    sweep_delays(&run, 4, &mut alphabets);
+    sweep_shuffle(&run, if quick { 4 } else { 5 }, &mut alphabets);
+    sweep_anchors(&run, if quick { 4 } else { 5 }, &mut alphabets);
+    run.section("elapsed_before_wakeups_s", json!(run.elapsed()));
+    sweep_wakeups(&run, args.tier, &mut alphabets);
+
+    run.section("word_alphabets", Value::Object(alphabets));
+    run.section("sequence_counts", json!({"delay_alphabet_max": DISTS.iter().map(|(m, c)| rng::delay_words(*m, *c).len()).max(), "age_sequences_len4": seq_count(rng::age_words().len() as u64, 4)}));
+    run.sample(json!({"kind": "draw", "interval": 144, "activation": 0, "funding": 0, "tip": 1000, "words": ["0x10", "0x4"], "expected": "first word has age 5 (redrawn), second age 3: boundary 864 - 3*144 = 432"}));
+    run.sample(json!({"kind": "wakeup", "transfers": [[0, 6], [3, 9]], "tip": 0, "margin": 2, "jitter_cap": 3, "expected": "one wake-up at 5 covering both (windows [2,5] and [5,8])"}));
+    run.sample(json!({"kind": "edge", "from": "16 source actions, 0 destination actions, no other bundles, canonical expiry, send-to-self", "answer": "anchor_on_grid = false", "expected": "Preparation -> Nonconforming (documented confirmatory refutation)"}));
+    run.require(run.outcomes_distinct() >= 60 || run.failure_count() > 0, "fewer than 60 distinct outcome classes observed");
+    for must in [
+        "delay(1,1):at-cap:first-word", "delay(16,96):at-cap:first-word", "delay(66,576):at-cap:first-word", "delay(5,48):at-cap:first-word", "delay(134217728,134217728):at-cap:first-word",
+        "delay(1,1):zero:after-rejection", "delay(16,96):zero:after-rejection", "delay(66,576):inside:after-rejection", "delay(134217728,134217728):inside:first-word-wrapped-32-bits",
+        "draw:age4:after-redraw", "draw:none", "redraw:age4:first-word", "redraw:none", "shuffle:moved-after-rejection", "earliest:saturated",
+        "wakeup:shared", "wakeup:immediate-plus-groups", "wakeup:infeasible-reported", "point:preparation", "point:transfer", "edge:unknown-decided", "edge:decision-kept",
+        "edge:confirmatory-negative-overrides-label", "schedule:saturated", "expiry:saturated", "grid:saturated", "scaled:saturated",
+    ] {
+        run.require(seen(must) || run.failure_count() > 0, &format!("outcome {must} never observed"));
+    }
+    run.finish(&replay)
 }
